@@ -1,18 +1,19 @@
 SPECIFICATION Spec
 CONSTANTS
-  MaxTasks = 4
-  NChan = 1
-  Budget = 3
+  MaxTasks = 3
+  NChan = 2
+  Budget = 2
   MaxOver = 2
   YieldFree = FALSE
-  MaxRoots = 1
-  MaxExt = 0
+  MaxRoots = 2
+  MaxExt = 1
   Lifo = FALSE
   Hist = TRUE
   Pinned = FALSE
 VIEW view
 INVARIANT DriverInv
 INVARIANT FifoOnce
+ACTION_CONSTRAINT EmitTrans
 PROPERTY RefinesAbs
 PROPERTY RelayForward
 PROPERTY StatusForward
